@@ -116,12 +116,19 @@ def e2_classification(rep: C.Report) -> None:
         import wikitextprocessor.parser as ps
 
         def regex_in(path, iter_pred):
+            from vf import passes as PS
+
             tree = ast.parse(open(path).read())
+            consts = PS.compiled_constants(tree)  # patterns moved into module-level re.compile() constants
             for n in ast.walk(tree):
                 if isinstance(n, ast.For) and iter_pred(n):
                     for c in ast.walk(n):
                         if isinstance(c, ast.Call) and ast.unparse(c.func) == "re.match" and isinstance(c.args[0], ast.Constant):
                             return c.args[0].value, c.lineno
+                        if isinstance(c, ast.Call) and ast.unparse(c.func) == "re.match" and isinstance(c.args[0], ast.Name) and c.args[0].id in consts:
+                            return consts[c.args[0].id][0], c.lineno
+                        if isinstance(c, ast.Call) and isinstance(c.func, ast.Attribute) and c.func.attr == "match" and isinstance(c.func.value, ast.Name) and c.func.value.id in consts:
+                            return consts[c.func.value.id][0], c.lineno
             return None, None
 
         p2, l2 = regex_in(core.__file__, lambda n: ast.unparse(n.iter).replace(" ", "").startswith("map(str,args[1:])"))
